@@ -3,7 +3,8 @@
 miniB: a second well-formed configuration for C20.  Compared with the demo configuration (and miniA) it renames every key,
 basetype and type code, names the leaf key 'fmt' (not 'ext'), has a third basetype whose name contains an underscore ('l_ib'), per-basetype leaf keys ('rev' for 'ct'), one hierarchy level more
 (fam / item), closed vocabularies of its own, a digit-only revision pattern, and its value codes overlap between keys
-('p' is both a kind and a status) while every mapping stays one-to-one.
+('p' is both a kind and a status) while every mapping stays one-to-one; one intermediate level (pr__item) is declared
+explicitly inside an extrapolated chain.
 """
 sip = '/'
 
@@ -14,6 +15,7 @@ sid_templates = {
     # basetype pr ("prop"): prj / kind / fam / item / rev / status / fmt
     'pr__file':    '{prj}/{kind:p}/{fam}/{item}/{rev}/{status}/{fmt:images}',
     'pr__status':  '{prj}/{kind:p}/{fam}/{item}/{rev}/{status}',          # extrapolated
+    'pr__item':    '{prj}/{kind:p}/{fam}/{item}',                         # an intermediate level declared explicitly: extrapolation skips it and goes on (pr__fam above it is generated)
     'pr':          '{prj}/{kind:p}',
 
     # basetype ct ("cut"): prj / kind / reel / rev / status / fmt
